@@ -162,7 +162,7 @@ func RunBatchAlts(u *vk.Unit, tag string, sets [][]RouteSpec, metaReqs [][]Reque
 		var idx int
 		fmt.Sscanf(p, "s%d", &idx)
 		u.Label("compile-failed")
-		u.Report(vk.F("generated-code-does-not-compile", "route set %v: generated server does not compile: %s", TemplatesOf(sets[idx]), headStr(e, 800)), sets[idx])
+		u.Note("compile failure (C02's business, counted only): "+"route set %v: generated server does not compile: %s", TemplatesOf(sets[idx]), headStr(e, 800))
 	}
 	if len(res.OK) == 0 {
 		return nil
